@@ -2,6 +2,8 @@ package main
 
 import (
 	"bufio"
+	"reflect"
+	"unsafe"
 	"math/rand"
 	"encoding/hex"
 	"fmt"
@@ -13,8 +15,11 @@ import (
 	"strings"
 	"time"
 
+	"github.com/MinterTeam/minter-go-node/coreV2/check"
 	"github.com/MinterTeam/minter-go-node/coreV2/state/accounts"
+	"github.com/MinterTeam/minter-go-node/coreV2/state/candidates"
 	"github.com/MinterTeam/minter-go-node/coreV2/state/commission"
+	"github.com/MinterTeam/minter-go-node/coreV2/state/swap"
 	"github.com/tendermint/tendermint/crypto/ed25519"
 	tx "github.com/MinterTeam/minter-go-node/coreV2/transaction"
 	"github.com/MinterTeam/minter-go-node/coreV2/types"
@@ -33,6 +38,7 @@ type Sink struct {
 	Last   []string
 	Fails  []string
 	NLines int
+	LastOK string // last "OK <kind> …" line of the driver (carries the modelled/unmodelled/skipped counters)
 }
 
 func NewSink(tracePath string, driver string) (*Sink, error) {
@@ -106,6 +112,9 @@ func (s *Sink) Op(lines ...string) []string {
 			continue
 		}
 		s.Last = append(s.Last, l)
+		if strings.HasPrefix(l, "OK ") {
+			s.LastOK = l
+		}
 		if strings.HasPrefix(l, "FAIL") || strings.HasPrefix(l, "MISMATCH") || strings.HasPrefix(l, "VIOL") {
 			s.Fails = append(s.Fails, l)
 		}
@@ -173,6 +182,7 @@ type Hist struct {
 	TmPend map[uint64][]abci.ValidatorUpdate // updates taking effect at height
 	PrevSet map[types.Pubkey]bool           // validator set of the previous height (the one that signed LastCommitInfo)
 	DebugHook func(*GenTx)
+	PKs    map[types.Pubkey]bool // candidate public keys that ever appeared (block-list universe)
 }
 
 var burnAddr = types.HexToAddress("Mx00cedde786b34d733d1dc96559253081572df2c6")
@@ -198,6 +208,10 @@ func NewHist(o HistOpts, sink *Sink) (*Hist, error) {
 	h.G = &Gen{W: w, N: n, Weights: o.Weights, MalformedPct: o.Malformed, CustomGasPct: o.CustomGas, MultisigPct: o.Multisig, NearVotes: o.NearVotes}
 	if h.G.Weights == nil {
 		h.G.Weights = DefaultWeights()
+	}
+	h.PKs = map[types.Pubkey]bool{}
+	for _, pk := range w.PubKeys {
+		h.PKs[pk] = true
 	}
 	for _, a := range w.Addrs {
 		h.Univ[a] = true
@@ -247,6 +261,9 @@ func (h *Hist) appExtras(d Dump) {
 		vs = append(vs, fmt.Sprintf("%s@%d", v.Name, v.Height))
 	}
 	d["db versions"] = strings.Join(vs, ",")
+	if c, ok := h.N.App.CurrentState().Candidates().(*candidates.Candidates); ok {
+		d["app totalstakes"] = c.TotalStakes().String()
+	}
 }
 
 // sendFull exports the committed state and sends the delta against the current view.
@@ -339,6 +356,59 @@ func (h *Hist) liveProjection() Dump {
 		for i, st := range cs.Candidates().GetStakes(c.PubKey) {
 			d[fmt.Sprintf("st %d %s %d", c.ID, hexs(st.Owner[:]), st.Coin)] = fmt.Sprintf("%d %s %s", i, st.Value, st.BipValue)
 		}
+		for i, u := range liveUpdates(c) {
+			d[fmt.Sprintf("up %d %d", c.ID, i)] = u
+		}
+		h.PKs[c.PubKey] = true
+	}
+	if c, ok := cs.Candidates().(*candidates.Candidates); ok {
+		d["app totalstakes"] = c.TotalStakes().String()
+	}
+	// block list, restricted to the public keys that ever appeared
+	for pk := range h.PKs {
+		if cs.Candidates().IsBlockedPubKey(pk) {
+			d["blk "+hexs(pk[:])] = "1"
+		}
+	}
+	// multisig data and stake locks of the universe
+	for a := range h.Univ {
+		ad := hexs(a[:])
+		acc := cs.Accounts().GetAccount(a)
+		if acc != nil && acc.IsMultisig() {
+			ms := acc.Multisig()
+			var parts []string
+			for i, x := range ms.Addresses {
+				parts = append(parts, fmt.Sprintf("%s:%d", hexs(x[:]), ms.Weights[i]))
+			}
+			d["ms "+ad] = fmt.Sprintf("%d %s", ms.Threshold, strings.Join(parts, ","))
+		}
+		if l := cs.Accounts().GetLockStakeUntilBlock(a); l != 0 {
+			d["ls "+ad] = fmt.Sprint(l)
+		}
+	}
+	// used checks among the checks the generator issued
+	for _, ic := range h.W.Checks {
+		if c, err := check.DecodeFromBytes(ic.Raw); err == nil && cs.Checks().IsCheckUsed(c) {
+			hh := c.Hash()
+			d["uc "+hexs(hh[:])] = "1"
+		}
+	}
+	// limit orders: the committed book (last export) overridden by the orders the node holds in memory
+	for k, v := range h.View {
+		if strings.HasPrefix(k, "o ") {
+			d[k] = v
+		}
+	}
+	if sw, ok := cs.Swap().(*swap.SwapV2); ok {
+		for _, lo := range liveOrders(sw) {
+			k := fmt.Sprintf("o %d", lo.id)
+			if lo.gone {
+				delete(d, k)
+			} else {
+				d[k] = lo.val
+			}
+		}
+		d["app nextorder"] = fmt.Sprint(liveNextOrder(sw, h.View["app nextorder"]))
 	}
 	for a := range h.Univ {
 		if m := cs.WaitList().GetByAddress(a); m != nil {
@@ -420,8 +490,11 @@ func (h *Hist) sendLive(op string) {
 	for k := range h.View {
 		if liveKey(k) {
 			if _, ok := d[k]; !ok {
-				// only addresses in the universe are tracked live
-				if !(strings.HasPrefix(k, "b ") || strings.HasPrefix(k, "n ")) || h.inUniv(k) {
+				// only addresses in the universe are tracked live; block-list entries and used checks never disappear
+				if strings.HasPrefix(k, "blk ") || strings.HasPrefix(k, "uc ") {
+					continue
+				}
+				if !(strings.HasPrefix(k, "b ") || strings.HasPrefix(k, "n ") || strings.HasPrefix(k, "ms ") || strings.HasPrefix(k, "ls ")) || h.inUniv(k) {
 					out = append(out, "-"+k)
 					delete(h.View, k)
 				}
@@ -436,7 +509,7 @@ func (h *Hist) sendLive(op string) {
 
 // liveKey: dump keys maintained by the live projection.
 func liveKey(k string) bool {
-	for _, p := range []string{"b ", "n ", "c ", "p ", "cand ", "st ", "wl ", "ff ", "v ", "h ", "cv ", "uv "} {
+	for _, p := range []string{"b ", "n ", "c ", "p ", "cand ", "st ", "up ", "wl ", "ff ", "v ", "h ", "cv ", "uv ", "ms ", "ls ", "o ", "blk ", "uc "} {
 		if strings.HasPrefix(k, p) {
 			return true
 		}
@@ -641,7 +714,7 @@ func (h *Hist) Block() bool {
 			}
 		}
 		if dp != "" {
-			h.S.Op(fmt.Sprintf("D code=999 panic=%q type=%d raw=%x", dp, g.Type, g.Raw))
+			h.S.Op(fmt.Sprintf("D code=999 %s raw=%x panic=%q", decodedFields(g.Raw), g.Raw, dp))
 			h.Panics = append(h.Panics, fmt.Sprintf("DeliverTx h=%d type=%d: %s raw=%x", height, g.Type, dp, g.Raw))
 			return false
 		}
@@ -782,10 +855,13 @@ func (h *Hist) divergence(lp, d Dump) []string {
 		}
 		f := strings.Fields(k)
 		switch f[0] {
-		case "b", "n":
+		case "b", "n", "ms", "ls":
 			if !h.inUniv(k) {
 				continue
 			}
+		case "blk", "uc":
+			// only the block-list entries / checks of the known universe are read live
+			continue
 		case "wl":
 			if !h.inUniv("b " + f[2]) {
 				continue
@@ -910,6 +986,97 @@ func (h *Hist) Run() {
 			break
 		}
 	}
+	// evidence counters of the model run (as of the last commit)
+	for _, f := range strings.Fields(h.S.LastOK) {
+		kv := strings.SplitN(f, "=", 2)
+		if len(kv) == 2 && (kv[0] == "modelled" || kv[0] == "unmodelled" || kv[0] == "skipped" || kv[0] == "oracle") {
+			var n int
+			fmt.Sscan(kv[1], &n)
+			h.Stats["model."+kv[0]] = n
+		}
+	}
 }
 
 var _ = big.NewInt
+
+
+// ---- read-only views of in-memory state that has no getter (observation only) ----
+
+func bigAt(v reflect.Value) *big.Int {
+	if v.IsNil() {
+		return big.NewInt(0)
+	}
+	return (*big.Int)(unsafe.Pointer(v.Pointer()))
+}
+
+// liveUpdates renders the pending stake updates of a candidate in list order ("owner coin value bip").
+func liveUpdates(c *candidates.Candidate) []string {
+	var out []string
+	rv := reflect.ValueOf(c).Elem().FieldByName("updates")
+	for i := 0; i < rv.Len(); i++ {
+		e := rv.Index(i)
+		if e.IsNil() {
+			continue
+		}
+		st := e.Elem()
+		ow := st.FieldByName("Owner")
+		var a types.Address
+		for j := 0; j < 20; j++ {
+			a[j] = byte(ow.Index(j).Uint())
+		}
+		out = append(out, fmt.Sprintf("%s %d %s %s", hexs(a[:]), st.FieldByName("Coin").Uint(), bigAt(st.FieldByName("Value")), bigAt(st.FieldByName("BipValue"))))
+	}
+	return out
+}
+
+type liveOrder struct {
+	id   uint32
+	gone bool
+	val  string
+}
+
+// liveOrders lists every limit order the node currently holds in memory (stored in sorted-pair orientation).
+func liveOrders(sw *swap.SwapV2) []liveOrder {
+	var out []liveOrder
+	pairs := reflect.ValueOf(sw).Elem().FieldByName("pairs")
+	it := pairs.MapRange()
+	for it.Next() {
+		pv := it.Value()
+		if pv.IsNil() {
+			continue
+		}
+		key := it.Key()
+		c0, c1 := key.Field(0).Uint(), key.Field(1).Uint()
+		ol := pv.Elem().FieldByName("orders")
+		if ol.IsNil() {
+			continue
+		}
+		lst := ol.Elem().FieldByName("list")
+		oi := lst.MapRange()
+		for oi.Next() {
+			id := uint32(oi.Key().Uint())
+			lv := oi.Value()
+			if lv.IsNil() {
+				out = append(out, liveOrder{id: id, gone: true})
+				continue
+			}
+			l := (*swap.Limit)(unsafe.Pointer(lv.Pointer()))
+			if l.WantBuy == nil || l.WantSell == nil || l.WantBuy.Sign() == 0 || l.WantSell.Sign() == 0 {
+				out = append(out, liveOrder{id: id, gone: true})
+				continue
+			}
+			out = append(out, liveOrder{id: id, val: fmt.Sprintf("%d %d %v %s %s %s %d", c0, c1, !l.IsBuy, l.WantBuy, l.WantSell, hexs(l.Owner[:]), l.Height)})
+		}
+	}
+	return out
+}
+
+func liveNextOrder(sw *swap.SwapV2, committed string) uint64 {
+	n := reflect.ValueOf(sw).Elem().FieldByName("nextOrderID").Uint()
+	if n != 0 {
+		return n
+	}
+	var c uint64
+	fmt.Sscan(committed, &c)
+	return c
+}
